@@ -119,14 +119,21 @@ class Runner:
             for v in safe_oracle(mod, case, res):
                 sig, msg = v
                 self.violations.append({"sig": sig, "msg": msg, "case": case, "observed": res})
-            for ft in mod.features(case, res):
+            try:
+                fts = list(mod.features(case, res))
+            except Exception:  # noqa  -- bookkeeping only: a result of unexpected structure is judged by the oracle, not here
+                fts = ["features-unreadable"]
+            for ft in fts:
                 self.feature_hist[ft] = self.feature_hist.get(ft, 0) + 1
             if has_nonfinite(res):      # visibility only: comparisons against nan are always false, so count where they could hide
                 self.feature_hist["result:contains-nan-or-inf"] = self.feature_hist.get("result:contains-nan-or-inf", 0) + 1
                 self.nonfinite_cases = getattr(self, "nonfinite_cases", 0) + 1
-            k = mod.nontrivial_key(case, res)
-            if k is not None:
-                self.nontrivial.add(k)
+            try:
+                k = mod.nontrivial_key(case, res)
+                if k is not None:
+                    self.nontrivial.add(k if k.__hash__ else repr(k))
+            except Exception:  # noqa  -- bookkeeping only
+                pass
             try:
                 reqs = mod.model_requests(case, res) if with_model else []
             except Exception as e:  # noqa  -- the result cannot be turned into a model request: a disagreement with a concrete case
